@@ -124,6 +124,9 @@ CtorStorage(p, c, a) ==                                                        \
   \* buffer for a longer text is its own business: it sizes by the input, not by the result)
   /\ (c.op \in {"from_utf8_lossy", "from_utf16", "from_utf16_lossy"} /\ c.cls = "ok" /\ Len(a.txt[T(c)]) <= MaxInl) =>
         (p.hd[T(c)].k # "H" /\ ~p.hd[T(c)].heap /\ c.dA = 0 /\ c.dR = 0)
+  \* collecting from an iterator whose lower bound is honest (not above the bytes it delivers): at most 16 bytes stay inline
+  /\ (c.op = "collect" /\ c.cls = "ok" /\ c.m = 0 /\ ~PIsSym(c.n) /\ c.n <= Len(a.txt[T(c)]) /\ Len(a.txt[T(c)]) <= MaxInl) =>
+        (p.hd[T(c)].k # "H" /\ ~p.hd[T(c)].heap /\ c.dA = 0 /\ c.dR = 0)
 InlineEdit(o, p, c) ==                                                         \* C09
   (c.op \in EditOps /\ o.hd[T(c)].k = "I" /\ p.hd[T(c)].k # "D" /\ p.hd[T(c)].len <= MaxInl) =>
      (c.dA + c.dR + c.xA = 0 /\ p.hd[T(c)].k # "H" /\ ~p.hd[T(c)].heap)
